@@ -89,6 +89,8 @@ class Run:
     # ----------------------------------------------------------------- TLC
     def tlc(self, module, cfg=None, env=None, workers=None, timeout=1800, simulate=None, extra=None,
             heap_gb=None):
+        if self.tier == "thorough":
+            timeout = max(timeout, 5400)
         self.nmeta += 1
         meta = self.path("meta%d" % self.nmeta)
         cfg = cfg or module
